@@ -17,9 +17,15 @@ from harness.common import drain_failures, make_orchestrator, parse_json_violati
 from harness.framework import Check
 
 PROP = "C16"
-FLAGS = ["q_py_hash_in_string", "q_ts_loc_raw_span", "q_ts_nonpublic_counted", "q_ts_accessor_counted", "q_ts_abstract_skipped",
-         "q_rs_trait_first_ident", "q_rs_generic_impl_lost", "q_rs_name_collision", "q_rs_block_comment_counted"]
-LANG_FLAGS = {"py": FLAGS[0:1], "ts": FLAGS[1:5], "js": FLAGS[1:5], "rs": FLAGS[5:9]}
+FLAGS = ["q_py_hash_in_string", "q_ts_nonpublic_counted", "q_ts_accessor_counted", "q_ts_block_comment_counted",
+         "q_rs_name_collision", "q_rs_block_comment_counted"]
+LANG_FLAGS = {"py": FLAGS[0:1], "ts": FLAGS[1:4], "js": FLAGS[1:4], "rs": FLAGS[4:6]}
+# defects of the Python mirror: the ones still present ...
+ACTUAL = frozenset({"py_hash", "ts_nonpublic", "ts_accessor", "ts_block", "rs_collision", "rs_block"})
+# ... and the ones repaired by fix: commits (known.d status "fixed: ..."): observing one again is a violation
+FIXED_GROUPS = [(("q_ts_loc_raw_span",), {"ts_loc_raw"}), (("q_ts_abstract_skipped",), {"ts_abstract"}),
+                (("q_rs_trait_first_ident",), {"rs_trait"}), (("q_rs_generic_impl_lost",), {"rs_generic"}),
+                (("q_rs_trait_first_ident", "q_rs_generic_impl_lost"), {"rs_trait", "rs_generic"})]
 HEADER = "From TL Require Import Lib.Base Lib.GenTypes Model.SrpTypes Model.SrpSpec Model.Srp Model.SrpRun Actual.SrpActual.\n"
 EXT = {"py": ".py", "ts": ".ts", "js": ".js", "rs": ".rs"}
 COQ_LANG = {"py": "Py", "ts": "Ts", "js": "Js", "rs": "Rs"}
@@ -168,7 +174,7 @@ class Gen:
     def klass(self, depth, name=None, n_methods=None):
         r, lang = self.r, self.lang
         name = name or r.choice(CLASS_NAMES)
-        pre = []
+        pre, deco_in = [], 0
         if lang == "py":
             ckind = "CPlain"
             if r.random() < 0.2:       # decorators sit above the `class` line: outside the ClassDef line range
@@ -197,8 +203,9 @@ class Gen:
                 if ckind in ("CExport", "CExportDefault", "CExportAbstract"):
                     pre = deco       # the decorator belongs to the export_statement, not to the class node
                 else:
-                    heads = deco + heads   # the class node starts at its decorator
-        meta = {"name": name, "ckind": ckind, "pre": pre}
+                    heads = deco + heads   # the class node starts at its decorator, it is reported at its `class` line
+                    deco_in = len(deco)
+        meta = {"name": name, "ckind": ckind, "pre": pre, "deco_in": deco_in}
         kids = []
         if lang == "py" and r.random() < 0.35:
             kids += self.docstring() if r.random() < 0.6 else [line("LCode", '"""One line."""')]
@@ -355,7 +362,8 @@ def render(lang, tree, top_offset=0):
         rec = None
         if role == "class":
             off = {"CPlain": 0, "CExport": 7, "CExportDefault": 15, "CAbstract": 0, "CExportAbstract": 7}[meta["ckind"]]
-            rec = {"name": meta["name"], "ckind": meta["ckind"], "line": start, "col": ind * depth + off, "len": 0, "members": []}
+            deco = meta.get("deco_in", 0)
+            rec = {"name": meta["name"], "ckind": meta["ckind"], "line": start + deco, "col": ind * depth + off, "deco": deco, "len": 0, "members": []}
             flat["classes"].append(rec)
         elif role == "struct":
             rec = {"name": meta["name"], "path": list(path), "generic": meta["generic"], "line": start, "col": ind * depth, "len": 0}
@@ -409,59 +417,64 @@ def units(lang, flat):
                         "alt_loc": s["len"] + sum(i["len"] for i in byname)})
     else:
         for c in flat["classes"]:
-            out.append({"name": c["name"], "line": c["line"], "col": c["col"], "mc": sum(1 for m in c["members"] if _public(m)), "loc": loc(c["line"], c["len"]),
+            out.append({"name": c["name"], "line": c["line"], "col": c["col"], "mc": sum(1 for m in c["members"] if _public(m)), "loc": loc(c["line"] - c["deco"], c["len"]),
                         "alt_mc": sum(1 for m in c["members"] if m["kind"] not in ("MField", "MCtor") and not m["name"].startswith("_")),
                         "alt_loc": c["len"]})
     return out
 
 
-def mirror_units(case, actual: bool):
+def mirror_units(case, D):
     """Python mirror of the Coq development, used (a) as the oracle over the full stream when the Coq model cannot be
-    built / evaluated and (b) cross-checked against the Coq verdicts on every normal run.
-    actual=False: the documented behaviour (Model/SrpSpec.v);  actual=True: the behaviour claimed for the current tree
-    (Model/Srp.v under Actual/SrpActual.v: the nine listed defects switched on)."""
+    built / evaluated, (b) cross-checked against the Coq verdicts on every normal run, (c) to recognise a defect that
+    is recorded as fixed when it is observed again.  D = set of defects switched on: frozenset() is the documented
+    behaviour (Model/SrpSpec.v), ACTUAL the behaviour claimed for the current tree (Model/Srp.v under Actual/SrpActual.v)."""
     lang, flat = case["lang"], case["flat"]
     ls = flat["lines"]
 
     def loc(start, n):
         seg = ls[start - 1:start - 1 + n]
-        if not actual:
-            return sum(1 for k, _ in seg if _is_code(k))
-        if lang == "py":
-            return sum(1 for _, t in seg if t and not t.startswith("#"))
-        if lang == "rs":
-            return sum(1 for _, t in seg if t and not t.startswith("//"))
-        return n
+        if lang in ("ts", "js") and "ts_loc_raw" in D:
+            return n
+        cnt = sum(1 for k, _ in seg if k == "LCode")
+        if "py_hash" not in D:
+            cnt += sum(1 for k, _ in seg if k == "LStrHash")
+        if (lang in ("ts", "js") and "ts_block" in D) or (lang == "rs" and "rs_block" in D):
+            cnt += sum(1 for k, _ in seg if k == "LBlockComment")
+        return cnt
 
     def counted(m):
-        if not actual or lang in ("py", "rs"):
-            return _public(m)
-        if m["kind"] == "MField":
-            return False
-        name = None if m["kind"] == "MHashPrivate" else m["name"]
-        return not (name == "constructor" or (name and name.startswith("_")))
+        k, under = m["kind"], m["name"].startswith("_")
+        if lang in ("ts", "js"):
+            if k == "MHashPrivate":
+                return "ts_nonpublic" in D
+            if k in ("MPrivateKw", "MProtectedKw"):
+                return "ts_nonpublic" in D and not under
+            if k == "MProperty":
+                return "ts_accessor" in D and not under
+        return _public(m)
 
     out = []
     if lang == "rs":
         def target(i):
-            if not actual:
-                return i["self"]
-            if i["trait"] is not None and i["trait"][0] == "simple":
+            if "rs_trait" in D and i["trait"] is not None and i["trait"][0] == "simple":
                 return i["trait"][1]
-            return "" if i["generic"] else i["self"]
+            if "rs_generic" in D and i["generic"]:
+                return ""
+            return i["self"]
         for s in flat["structs"]:
-            mine = [i for i in flat["impls"] if target(i) == s["name"] and (actual or i["path"] == s["path"])]
+            mine = [i for i in flat["impls"] if target(i) == s["name"] and ("rs_collision" in D or i["path"] == s["path"])]
             out.append({"name": s["name"], "line": s["line"], "col": s["col"], "mc": sum(sum(1 for m in i["members"] if counted(m)) for i in mine),
                         "loc": loc(s["line"], s["len"]) + sum(loc(i["line"], i["len"]) for i in mine)})
         return out
     for c in flat["classes"]:
-        if actual and c["ckind"] in ("CAbstract", "CExportAbstract"):
+        if "ts_abstract" in D and c["ckind"] in ("CAbstract", "CExportAbstract"):
             continue
-        out.append({"name": c["name"], "line": c["line"], "col": c["col"], "mc": sum(1 for m in c["members"] if counted(m)), "loc": loc(c["line"], c["len"])})
+        out.append({"name": c["name"], "line": c["line"], "col": c["col"], "mc": sum(1 for m in c["members"] if counted(m)),
+                    "loc": loc(c["line"] - c["deco"], c["len"])})
     return out
 
 
-def mirror_report(case, sec, actual: bool):
+def mirror_report(case, sec, D):
     d = cfg_to_dict(sec)["srp"]
     if not d.get("enabled", True):
         return []
@@ -471,7 +484,7 @@ def mirror_report(case, sec, actual: bool):
     ml = own.get("max_loc", d.get("max_loc", 200))
     check, kws = d.get("check_keywords", True), d.get("keywords", DEFAULT_KEYWORDS)
     out = []
-    for u in mirror_units(case, actual):
+    for u in mirror_units(case, D):
         issues = []
         if u["mc"] > mm:
             issues.append(f"{u['mc']} methods (max: {mm})")
@@ -482,6 +495,14 @@ def mirror_report(case, sec, actual: bool):
         if issues:
             out.append([u["line"], u["col"], f"Class '{u['name']}' may violate SRP: {', '.join(issues)}"])
     return sorted(out)
+
+
+def fixed_defect_seen(case, sec, r):
+    """keys of findings recorded as fixed whose re-introduction (next to the defects still present) explains r exactly"""
+    for keys, extra in FIXED_GROUPS:
+        if r == mirror_report(case, sec, ACTUAL | extra):
+            return keys
+    return ()
 
 
 def gen_configs(r, lang, us, n):
@@ -643,7 +664,7 @@ def coq_path(p):
 
 def coq_file(lang, flat):
     lines = coq.coq_list([f"L {k} {cs(t)}" for k, t in flat["lines"]])
-    classes = coq.coq_list([f"C {cs(c['name'])} {c['ckind']} {c['line']} {c['col']} {c['len']} {coq_members(c['members'])}" for c in flat["classes"]])
+    classes = coq.coq_list([f"C {cs(c['name'])} {c['ckind']} {c['line']} {c['col']} {c['deco']} {c['len']} {coq_members(c['members'])}" for c in flat["classes"]])
     structs = coq.coq_list([f"S' {cs(s['name'])} {coq_path(s['path'])} {coq.coq_bool(s['generic'])} {s['line']} {s['col']} {s['len']}" for s in flat["structs"]])
 
     def tr(t):
@@ -776,12 +797,17 @@ def run(tier: str, seed: int, replay: str | None = None) -> int:
             if ver is None:
                 # the model could not be built / evaluated (a generated item failed closed, a proof or the model broke):
                 # judge EVERY run against the Python mirror of the documented behaviour; a deviation that the mirror of the
-                # nine listed defects reproduces exactly is a known finding, anything else is a violation with this input
-                want = mirror_report(case, sec, False)
+                # listed (still known) defects reproduces exactly is a known finding, anything else is a violation with this input
+                want = mirror_report(case, sec, frozenset())
                 if r == want:
                     continue
-                if r == mirror_report(case, sec, True):
+                if r == mirror_report(case, sec, ACTUAL):
                     chk.dist("fallback:explained-by-listed-defects")
+                    continue
+                again = fixed_defect_seen(case, sec, r)
+                for k in again:
+                    chk.known_finding(k, {"lang": lang, "text": case["text"], "config": cfg_to_dict(sec), "impl": r, "expected": want, "case": one})
+                if again:
                     continue
                 chk.violation({"reason": "the Coq model could not be built or evaluated; the implementation differs from the documented SRP thresholds "
                                          "on this input and the deviation is not one of the listed defects (Python ground-truth oracle)",
@@ -795,7 +821,7 @@ def run(tier: str, seed: int, replay: str | None = None) -> int:
                 continue
             cands_all = cand if cands_all is None else [a and b for a, b in zip(cands_all, cand)]
             chk.dist("verdict:" + ("reported" if r else "clean"))
-            if (spec_ok != (r == mirror_report(case, sec, False))) or (cand[0] != (r == mirror_report(case, sec, True))):
+            if (spec_ok != (r == mirror_report(case, sec, frozenset()))) or (cand[0] != (r == mirror_report(case, sec, ACTUAL))):
                 mirror_bad.append(case["id"])
             if spec_ok:
                 continue
@@ -808,6 +834,11 @@ def run(tier: str, seed: int, replay: str | None = None) -> int:
                 for k in relevant:
                     chk.known_finding(k, {"lang": lang, "text": case["text"], "config": cfg_to_dict(sec), "impl": r})
             else:
+                again = fixed_defect_seen(case, sec, r)
+                for k in again:   # a defect recorded as fixed is back: the framework turns this into a violation
+                    chk.known_finding(k, {"lang": lang, "text": case["text"], "config": cfg_to_dict(sec), "impl": r, "case": one})
+                if again:
+                    continue
                 info["model_actual_matches_impl"] = cand[0]
                 info["model_ideal_matches_spec"] = ideal_ok
                 chk.violation(info)
